@@ -235,3 +235,88 @@ m("c19-generic-first", "C19", "O19.4", (G + "config/mapping.py", "        except
 m("c19-args-not-popped", "C19", "O19.5", (G + "config/mapping.py", '        args = mapping.pop("__args__", [])', '        args = mapping.get("__args__", [])'))
 m("c19-construct-before-children", "C19", "O19.1", (G + "config/mapping.py", '                if "__type__" in structure:\n                    return self.construct(structure, **construct_kwargs)\n                return structure', '                return structure'), (G + "config/mapping.py", "            if isinstance(structure, dict):\n", '            if isinstance(structure, dict):\n                if "__type__" in structure:\n                    return self.construct(structure, **construct_kwargs)\n'))
 n("c19-n-fstring", "C19", (G + "config/mapping.py", 'item, where="%s[%s]" % (where, index)\n                            )\n                            for index, item in reversed(list(enumerate(structure)))', 'item, where=f"{where}[{index}]"\n                            )\n                            for index, item in reversed(list(enumerate(structure)))'))
+
+# ------------------------------------------------------------------ further behaviour-preserving idioms (must stay silent)
+n("c14-n-in-guard", "C14", (G + "config/mapping.py", """        try:
+            section_data = config_data[plugin.section]
+        except KeyError:
+            if plugin.required:
+                raise ConfigurationError(
+                    where="root", what="missing section %r" % plugin.section
+                ) from None
+        else:
+            # invoke the plugin and store possible output
+            # to avoid it being garbage collected
+            plugin_content = plugin.digest(section_data)
+            if plugin_content is not None:
+                content[plugin] = plugin_content""", """        if plugin.section not in config_data:
+            if plugin.required:
+                raise ConfigurationError(
+                    where="root", what="missing section %r" % plugin.section
+                )
+            continue
+        plugin_content = plugin.digest(config_data[plugin.section])
+        if plugin_content is not None:
+            content[plugin] = plugin_content"""))
+n("c14-n-pop-default", "C14", (G + "config/mapping.py", """    try:
+        logging_mapping = config_data.pop("logging")
+    except KeyError:
+        pass
+    else:
+        configure_logging(logging_mapping)""", """    logging_mapping = config_data.pop("logging", None)
+    if logging_mapping is not None:
+        configure_logging(logging_mapping)"""))
+n("c12-n-acquired-local", "C12", (R + "guard.py", """            if fnc_guard.acquire(blocking=False):
+                try:
+                    return fnc(*args, **kwargs)
+                finally:
+                    fnc_guard.release()
+            else:
+                raise RuntimeError("exclusive call to %s violated")""", """            acquired = fnc_guard.acquire(blocking=False)
+            if not acquired:
+                raise RuntimeError("exclusive call to %s violated")
+            try:
+                return fnc(*args, **kwargs)
+            finally:
+                fnc_guard.release()"""))
+n("c16-n-fields-local", "C16", (D + "logger.py", """        self._logger.log(
+            self.level,
+            self.message,
+            {""", """        fields = {"""), (D + "logger.py", """                "target": self.target,
+            },
+        )
+        self.target.demand = value""", """                "target": self.target,
+        }
+        self._logger.log(self.level, self.message, fields)
+        self.target.demand = value"""))
+n("c15-n-early-continue", "C15", (K + "factory.py", """            if child.demand <= excess_demand:
+                excess_demand -= child.demand
+                self._release_child(child)""", """            if child.demand > excess_demand:
+                continue
+            excess_demand -= child.demand
+            self._release_child(child)"""))
+n("c13-n-ext-local", "C13", (G + "core/config.py", """    if os.path.splitext(config_path)[1] in (".yaml", ".yml"):""", """    extension = os.path.splitext(config_path)[1]
+    if extension in (".yaml", ".yml"):"""), (G + "core/config.py", """    elif os.path.splitext(config_path)[1] == ".py":""", """    elif extension == ".py":"""))
+n("c19-n-early-return", "C19", (G + "config/mapping.py", """                if "__type__" in structure:
+                    return self.construct(structure, **construct_kwargs)
+                return structure""", """                if "__type__" not in structure:
+                    return structure
+                return self.construct(structure, **construct_kwargs)"""))
+n("c18-n-keyword-order", "C18", (G + "core/config.py", """        loader.add_constructor(
+            tag="!" + entry.name,
+            constructor=yaml_constructor(pipeline_factory, eager=settings.eager),
+        )""", """        constructor = yaml_constructor(pipeline_factory, eager=settings.eager)
+        loader.add_constructor(constructor=constructor, tag="!" + entry.name)"""))
+n("c11-n-local-loop", "C11", (R + "asyncio_runner.py", """        future = asyncio.run_coroutine_threadsafe(payload(), self.asyncio_loop)
+        return future.result()""", """        loop = self.asyncio_loop
+        future = asyncio.run_coroutine_threadsafe(payload(), loop)
+        return future.result()"""))
+n("c10-n-local-loop", "C10", (R + "asyncio_runner.py", """        future = asyncio.run_coroutine_threadsafe(payload(), self.asyncio_loop)
+        return future.result()""", """        loop = self.asyncio_loop
+        future = asyncio.run_coroutine_threadsafe(payload(), loop)
+        return future.result()"""))
+n("c17-n-helper-name", "C17", (M + "format_line.py", """    output_str = name.replace(r",", r"\\,").replace(r" ", r"\\ ")""", """    output_str = _escape_name(name)"""), (M + "format_line.py", """def escape_field(field: T) -> T:""", """def _escape_name(name: str) -> str:
+    return name.replace(r",", r"\\,").replace(r" ", r"\\ ")
+
+
+def escape_field(field: T) -> T:"""))
